@@ -516,11 +516,14 @@ mod proofs {
   /// concrete kind layout on both sides, symbolic *texts* of the named leaves, symbolic
   /// strictness: the control flow of the alignment then depends on few symbolic bits
   fn layout_sound(goal_kinds: &[u16], cand_kinds: &[u16]) {
+    let s: u8 = kani::any();
+    kani::assume(s < 5);
+    layout_sound_at(goal_kinds, cand_kinds, s);
+  }
+  fn layout_sound_at(goal_kinds: &[u16], cand_kinds: &[u16], s: u8) {
     let m = goal_kinds.len();
     let k = cand_kinds.len();
     let gv = [G::T, G::T, G::T];
-    let s: u8 = kani::any();
-    kani::assume(s < 5);
     let mut goals = [Leaf { kind: K_IDENT, named: true, text: b'x' }; KMAX];
     let mut cands = goals;
     let mut i = 0;
@@ -550,6 +553,11 @@ mod proofs {
     }
     std::mem::forget(gl);
     std::mem::forget(g);
+  }
+  #[kani::proof]
+  #[kani::unwind(8)]
+  fn c03_layc_sep_vs_two_named_ast() {
+    layout_sound_at(&[K_IDENT, K_PUNCT_A], &[K_IDENT, K_IDENT], 2);
   }
   macro_rules! layout_harness {
     ($name:ident, [$($g:expr),*], [$($c:expr),*]) => {
